@@ -46,7 +46,10 @@ def main(argv):
     from .vhdl import selfcheck_numeric
 
     n = selfcheck_numeric.run(3 if "--full" not in argv else 4)
-    print(f"selftest: vsim smoke ok; numeric_std fast vs bit-serial agree on {n} cases")
+    from .vhdl import selfcheck_rules
+
+    m = selfcheck_rules.run()
+    print(f"selftest: vsim smoke ok; numeric_std fast vs bit-serial agree on {n} cases; {m} static-rule cases ok")
     if "--full" in argv:
         from .cocoshim import run_all
 
